@@ -255,6 +255,17 @@ pub fn sanitise_text(lang: &Lang, form: Form, s: &str) -> String {
     t
 }
 
+/// Inside a Markdown `( … )` title a quoted attribute value keeps its parentheses as the backslash escapes
+/// `\(` / `\)` CommonMark allows there; the raw text, backslashes included, is the value blockwatch sees.
+/// (check-lua-pattern values keep their own backslashes, so their parentheses are replaced as in free text.)
+fn md_paren_escape(form: Form, name: &str, v: &str, sanitise: impl Fn(&str) -> String) -> String {
+    if form == Form::MdRef(0) && name != "check-lua-pattern" {
+        sanitise(&v.replace('(', "\u{1}").replace(')', "\u{2}")).replace('\u{1}', "\\(").replace('\u{2}', "\\)")
+    } else {
+        sanitise(v)
+    }
+}
+
 /// Adapts a start tag to the host form (values lose what the host cannot hold; quote style may change for
 /// Markdown titles). The adapted tag is the ground truth.
 pub fn sanitise_tag(lang: &Lang, form: Form, tag: &StartTag, multiline_ok: bool) -> StartTag {
@@ -300,14 +311,14 @@ pub fn sanitise_tag(lang: &Lang, form: Form, tag: &StartTag, multiline_ok: bool)
             Val::None => Val::None,
             Val::Unquoted(v) => Val::Unquoted(v.clone()),
             Val::Single(v) => {
-                let v = sanitise_text(lang, form, v).replace('\'', "~");
+                let v = md_paren_escape(form, &a.name, v, |v| sanitise_text(lang, form, v)).replace('\'', "~");
                 match form {
                     Form::MdRef(2) => Val::Double(v.replace('"', "~")),
                     _ => Val::Single(v),
                 }
             }
             Val::Double(v) => {
-                let v = sanitise_text(lang, form, v).replace('"', "~");
+                let v = md_paren_escape(form, &a.name, v, |v| sanitise_text(lang, form, v)).replace('"', "~");
                 match form {
                     Form::MdRef(1) => Val::Single(v.replace('\'', "~")),
                     _ => Val::Double(v),
@@ -431,6 +442,27 @@ pub fn balance(events: &[Ev]) -> Vec<Ev> {
         out.push(Ev::Close { spelling: 0, place: Place::default() });
     }
     out
+}
+
+impl Built {
+    /// The same file behind a UTF-8 byte-order mark: every byte offset moves by three, and so do the byte
+    /// columns on the first line.
+    pub fn with_bom(mut self) -> Built {
+        const N: usize = 3;
+        self.text.insert(0, '\u{feff}');
+        for b in &mut self.blocks {
+            b.tag_span = (b.tag_span.0 + N, b.tag_span.1 + N);
+            b.start_comment = (b.start_comment.0 + N, b.start_comment.1 + N);
+            b.end_comment = (b.end_comment.0 + N, b.end_comment.1 + N);
+            if b.line == 1 {
+                b.col += N;
+            }
+            if b.end_line == 1 {
+                b.end_col += N;
+            }
+        }
+        self
+    }
 }
 
 /// Balances the events first: the result is a well-nested file with its ground truth.
